@@ -1,7 +1,8 @@
 import RexModel.Driver.C17
+import RexModel.Driver.Async
 
 namespace Rex.Driver
 def allHandlers : List (String × Handler) :=
   [("ping", fun _ => pure (Lean.Json.mkObj [("pong", Lean.Json.bool true)]))] ++
-  C17.handlers
+  C17.handlers ++ Async.handlers
 end Rex.Driver
